@@ -159,7 +159,7 @@ impl<T: Tab + 'static> State<T> {
     pub fn exec(&mut self, op: &Value) -> Value {
         let mut ev = op.as_object().expect("HARNESS: op not an object").clone();
         // strip results of a previous run (replay of a recorded trace)
-        for k in ["ty", "out", "post", "r", "walk", "le_in"] {
+        for k in ["ty", "out", "post", "r", "walk", "le_in", "cls"] {
             ev.remove(k);
         }
         let name = arg_str(op, "op").to_string();
@@ -380,8 +380,13 @@ impl<T: Tab + 'static> State<T> {
             }
             "decomp" => {
                 let a = arg_usize(op, "a");
-                let r = self.get(a).decomp(arg_usize(op, "i"));
-                ok(vec![a], Some(json!(r)))
+                let (r, cls) = self.get(a).decomp(arg_usize(op, "i"));
+                (
+                    "ok",
+                    vec![a],
+                    Some(json!(r)),
+                    vec![("cls".to_string(), json!({"trivial": cls[0], "andt": cls[1], "xort": cls[2], "gate": cls[3]}))],
+                )
             }
             "unate" => {
                 let a = arg_usize(op, "a");
